@@ -12,7 +12,8 @@ CONSTANTS
     AllDirOptions,     \* DirU = "all": per file a subset of {0 absent, 1 its own content, 2 another
                        \* certified content, 3 a foreign content}
     ExcuseMisplaced,   \* KNOWN_FINDINGS C10-content-not-bound-to-name
-    ExcuseDecoy        \* KNOWN_FINDINGS C10-nested-immutable-dir
+    ExcuseDecoy,       \* KNOWN_FINDINGS C10-nested-immutable-dir
+    ExcuseNonRegular   \* KNOWN_FINDINGS C10-non-regular-entry-*
 
 VARIABLES served, dir, r, allowMissing,
           phase      \* 0: nothing chosen; 1: served list, range, flag chosen; 2: directory chosen
@@ -24,7 +25,8 @@ Cert     == [n \in Trios(0, N) |-> IF Pat = "equal2" /\ Index(n) = 3 THEN 1 ELSE
 Foreign  == 70
 CertSeq  == SortNames(DOMAIN Cert)
 Honest   == [i \in DOMAIN CertSeq |-> [name |-> CertSeq[i], cid |-> Cert[CertSeq[i]]]]
-HonestDir == [imm |-> Cert, decoy |-> "none"]
+NoNonReg  == [n \in {} |-> [k |-> "dir", cid |-> -1]]
+HonestDir == [imm |-> Cert, decoy |-> "none", nonreg |-> NoNonReg]
 
 AllNames == [num : 0..(N + 1), ext : AllExt] \cup {[num |-> -1, ext |-> "chunk"]}
 
@@ -53,6 +55,11 @@ IncSeqs(k, S) ==    \* strictly increasing sequences of length k over S
 IncreasingServed ==
     {[i \in DOMAIN Honest |-> [name |-> s[i], cid |-> Honest[i].cid]] : s \in IncSeqs(Len(Honest), IncNames)}
 
+Other(n) == LET i == CHOOSE i \in DOMAIN CertSeq : CertSeq[i] = n
+            IN  Cert[CertSeq[(i % Len(CertSeq)) + 1]]
+NonRegKinds(n) == {[k |-> "dir", cid |-> -1], [k |-> "dangling", cid |-> -1],
+                   [k |-> "link", cid |-> Cert[n]], [k |-> "link", cid |-> Other(n)], [k |-> "link", cid |-> Foreign]}
+
 AtomicDir ==
     {HonestDir}
     \cup {[HonestDir EXCEPT !.imm[n] = c] : n \in DOMAIN Cert, c \in {Foreign, 0} \cup Range(Cert)}
@@ -61,13 +68,15 @@ AtomicDir ==
     \cup {[HonestDir EXCEPT !.imm = Extend(Cert, [num |-> N + 1, ext |-> "chunk"], 71)]}
     \cup {[HonestDir EXCEPT !.decoy = d] : d \in {"first", "after"}}
     \cup {[HonestDir EXCEPT !.decoy = d, !.imm[n] = Foreign] : d \in {"first", "after"}, n \in DOMAIN Cert}
+    (* under the name of a certified file: a directory, a link to a copy of the genuine file, to  *)
+    (* another certified content, to a foreign content, to nothing                               *)
+    \cup UNION {{[HonestDir EXCEPT !.imm = Restrict(Cert, DOMAIN Cert \ {n}), !.nonreg = (n :> e)] :
+                    e \in NonRegKinds(n)} : n \in DOMAIN Cert}
 
 (* per file: absent / its own content / another certified content / a foreign content *)
 Absent == 0
-Other(n) == LET i == CHOOSE i \in DOMAIN CertSeq : CertSeq[i] = n
-            IN  Cert[CertSeq[(i % Len(CertSeq)) + 1]]
 AllDir ==
-    {[imm |-> Restrict(f, {n \in DOMAIN f : f[n] # Absent}), decoy |-> "none"] :
+    {[imm |-> Restrict(f, {n \in DOMAIN f : f[n] # Absent}), decoy |-> "none", nonreg |-> NoNonReg] :
         f \in [Trios(0, N) -> AllDirOptions]}
 ResolveAll(d) ==
     [d EXCEPT !.imm = [n \in DOMAIN d.imm |->
@@ -77,7 +86,7 @@ ResolveAll(d) ==
 (* the content the served list assigns to its name (its certified content if unnamed)      *)
 DirFromServed(s) ==
     LET m == ServedMap(s) IN
-    [imm |-> [n \in Trios(0, N) |-> IF n \in DOMAIN m THEN m[n] ELSE Cert[n]], decoy |-> "none"]
+    [imm |-> [n \in Trios(0, N) |-> IF n \in DOMAIN m THEN m[n] ELSE Cert[n]], decoy |-> "none", nonreg |-> NoNonReg]
 
 Ranges == {[kind |-> "full", a |-> 0, b |-> 0]}
           \cup [kind : {"from"}, a : 0..(N + 1), b : {0}]
@@ -114,6 +123,7 @@ DigestsSound ==
 Excused ==
     \/ ExcuseMisplaced /\ dir.decoy # "first" /\ OnlyMisplaced(dir, Cert, Rg.lo, Rg.hi, allowMissing)
     \/ ExcuseDecoy /\ dir.decoy = "first"
+    \/ ExcuseNonRegular /\ OnlyNonRegular(dir, Cert, Rg.lo, Rg.hi, allowMissing)
 (* "accepted => every file in range is the certified one" *)
 VerifySound ==
     phase = 2 /\ Accepted => Rg.ok /\ (AcceptRule(dir, Cert, Rg.lo, Rg.hi, allowMissing) \/ Excused)
@@ -126,7 +136,10 @@ GenPrint ==
     PrintT(<<"CASE", ToJson([N |-> N, pat |-> Pat,
                              served |-> [i \in DOMAIN served |-> [num |-> served[i].name.num, ext |-> served[i].name.ext,
                                                                   cid |-> served[i].cid]],
-                             dir |-> [imm |-> NameSeq(dir.imm), decoy |-> dir.decoy],
+                             dir |-> [imm |-> NameSeq(dir.imm), decoy |-> dir.decoy,
+                                      nonreg |-> LET q == SortNames(DOMAIN dir.nonreg) IN
+                                                 [i \in DOMAIN q |-> [num |-> q[i].num, ext |-> q[i].ext,
+                                                                      k |-> dir.nonreg[q[i]].k, cid |-> dir.nonreg[q[i]].cid]]],
                              r |-> r, allowMissing |-> allowMissing,
                              impl |-> Accepted,
                              digestsImpl |-> DownloadVerifyDigests(served, N, CertRoot(Cert)).ok,
